@@ -47,6 +47,11 @@ def signed (s : State) (b : Block) (j : Nat) : Bool := decide (b ∈ (s.nodes j)
 /-- preparers of `b` -/
 def preparedBy (s : State) (b : Block) (j : Nat) : Bool := decide (b ∈ (s.nodes j).myPreps)
 
+/-- a ledger holding exactly the blocks of heights `h-1, h-2, …, 1`, newest first -/
+def ChainAt : List Block → Nat → Prop
+  | [], h => h = 1
+  | b :: rest, h => b.h + 1 = h ∧ ChainAt rest b.h
+
 structure Inv (c : Cfg) (s : State) : Prop where
   knownProv : ∀ i it, it ∈ (s.nodes i).known → Prov c s it
   netProv : ∀ to m, (to, m) ∈ s.net → ∀ it ∈ m.items, Prov c s it
@@ -62,9 +67,10 @@ structure Inv (c : Cfg) (s : State) : Prop where
   checked : ∀ i b, b ∈ (s.nodes i).myPreps →
     (i = c.primary b.h b.v → c.propose i b = true) ∧ (i ≠ c.primary b.h b.v → c.verify i b = true)
   chainHeight : ∀ i b, b ∈ (s.nodes i).chain → b.h < (s.nodes i).height
+  chainShape : ∀ i, ChainAt (s.nodes i).chain (s.nodes i).height
 
 theorem inv_init (c : Cfg) : Inv c init := by
-  constructor <;> intros <;> simp_all [init]
+  constructor <;> intros <;> simp_all [init, ChainAt]
 
 /-- A step never removes a signature, a preparation or a ledger block. -/
 structure Grows (s s' : State) : Prop where
@@ -114,5 +120,6 @@ theorem inv_frame {c : Cfg} {s s' : State} (inv : Inv c s)
   · intro i b; rw [hc, hpb]; exact inv.commitPrepared i b
   · intro i b; rw [hp]; exact inv.checked i b
   · intro i b; rw [hch, hh]; exact inv.chainHeight i b
+  · intro i; rw [hch, hh]; exact inv.chainShape i
 
 end NeoModel.Dbft
